@@ -358,3 +358,36 @@ def c05(tier, seed):
         "size of every instantiation: FINAL flag, zero padding, byte count = position, then output block i = "
         "UBI(G, LE64(i), (8, FIRST|FINAL|OUT)) truncated to N bytes (multi-block and odd N included).",
         trusted_base=["spec/skein.py", "engine/models.py", "engine/bv.py"], coverage_extra={"exhaustive": True})
+
+
+from . import check_groestl
+
+
+@check("C07")
+def c07(tier, seed):
+    r = Report("C07", tier, TV, seed)
+    facts.load("K1")
+    jobs = [(check_groestl.c07_default, ("K1",)), (check_groestl.c07_update, ("K1",))]
+    for arm in check_groestl.ARMS:
+        jobs.append((check_groestl.c07_chain, ("K1", arm, 1)))
+        jobs.append((check_groestl.c07_chain, ("K1", arm, 2)))
+    for name, (bits, cols, inner) in check_groestl.HASHERS.items():
+        for lo in range(0, 8 * cols, 16):
+            jobs.append((check_groestl.c07_finalize, ("K1", name, _range_fn(lo, lo + 16))))
+    rets = par.run(r, jobs)
+    nf = sum(x for (fn, _), x in zip(jobs, rets) if fn is check_groestl.c07_finalize and x)
+    r.floor("finalisation specialisations (variant x buffer position)", nf, 384)
+    r.floor("compression chain instances", sum(1 for rule, _ in r.holds if rule == "R7.3") + sum(1 for v in r.violations if v["rule"] == "R7.3"), 12)
+    r.assumptions = ["the AES S-box is an uninterpreted byte function on both sides (the same for AESENCLAST and for the specification's SubBytes); spec/groestl.py is validated against the submission KATs with the real S-box",
+                     "models of the x86 intrinsics incl. AESENCLAST = ShiftRows, SubBytes, xor key",
+                     "block count below 2^64"]
+    return r.finish(
+        "R7.3: the whole chain Compressor::new(h) -> input(m1)[-> input(m2)] -> finalize_dirty() on symbolic h and m for the "
+        "512- and 1024-bit states, for each of the three dispatch arms (aes/ssse3/sse2 function sets), equals "
+        "Omega(f(f(h,m1),m2)) of the specification (P/Q with AddRoundConstant, SubBytes, ShiftBytes, MixBytes, 10/14 rounds) "
+        "on the digest half of the output - this covers every shuffle mask, round constant, the internal transposed layout "
+        "and MixBytes' GF(2^8) arithmetic bit-exactly. R7.4: finalize_into_dirty of the four hashers for EVERY buffer "
+        "position with the compressor as a black box: padding 0x80, zeros, 64-bit big-endian count = blocks so far + 1 or 2, "
+        "and the digest = last 28/32/48/64 bytes. R7.5: Default hands the specified IV (output size in the last bytes) to the "
+        "compressor. R7.6: update feeds exactly the complete blocks and counts them.",
+        trusted_base=["spec/groestl.py", "engine/models.py", "engine/bv.py"], coverage_extra={"exhaustive": True})
